@@ -26,7 +26,7 @@ Definition no_oracle : N := 999.
 Definition try_of (tbl : list tentry) (st : psbt) (i : nat) (m : bool) : tryres :=
   match find (fun e => (t_i e =? i) && Bool.eqb (t_m e) m && inputs_eqb (t_st e) (p_inputs st)) tbl with
   | Some e => t_res e
-  | None => TErr no_oracle
+  | None => TErr 0 no_oracle
   end.
 
 Definition interp_of (tbl : list (list pinput * option (nat * N))) (st : psbt) : option (nat * N) :=
